@@ -5,6 +5,8 @@ From Verif Require Import Base.Wire TaxId.Common TaxId.Regimes TaxId.CommonProof
 Import ListNotations.
 Open Scope Z_scope.
 Ltac Zify.zify_post_hook ::= Z.div_mod_to_equations.
+(* conversion: unfold the model's definitions before integer arithmetic (keeps Qed fast) *)
+Local Strategy 100 [Z.add Z.mul Z.sub Z.opp Z.modulo Z.div Z.eqb Z.ltb Z.leb Z.pow dv bZ].
 
 (* ======================= PL ======================= *)
 Definition F_PL : list (Z -> Z) := map Z.mul [6; 5; 7; 2; 3; 4; 5; 6; 7; -1].
